@@ -49,11 +49,13 @@ def admissibleLastB (h : History) (f : Fid) (off : Nat) (r : Bytes) : Bool :=
 def keyOwnedB (h : History) (f : Fid) : Bool :=
   h.all (fun p => p.1.key != f.key || p.1 == f)
 
-/-- `none` = fine; otherwise what is wrong with the answer `r` to a lookup of `f` -/
+/-- `none` = fine; otherwise what is wrong with the answer `r` to a lookup of `f`: bytes stored for another id
+    with the same needle key / for an id with another key / never stored at that offset at all -/
 def judge (h : History) (f : Fid) (off : Nat) (r : Bytes) : Option String :=
   if admissibleB h f off r then none
   else if h.any (fun p => p.1.key == f.key && p.1 != f && r.isPrefixOf (p.2.drop off)) then
     some "other-file-id-bytes"
+  else if h.any (fun p => r.isPrefixOf (p.2.drop off)) then some "bytes-of-unrelated-id"
   else some "bytes-never-stored"
 
 end SwV.Spec.C31
